@@ -7,7 +7,8 @@ binding      : real sessions (Dial + Do) over an in-memory connection against a 
                representative negotiated revision from 54429 up and every compression mode, with query ids / bodies
                (empty, long, non-UTF-8), 0..n connection-level and query-level settings with flags, parameters,
                secret, quota key, initial user, external data (named and default table), plain and streamed inserts
-               of several rounds. TLC parses ALL bytes written during Do: exactly one Query packet equal byte for
+               of several rounds, and up to three further queries on the same connection (fields set by an earlier query
+               and left empty by a later one). TLC parses ALL bytes written during Do: exactly one Query packet equal byte for
                byte to EncMsg(Query fields) - connection-level settings before query-level ones -, the external-data
                block with its table name and an empty terminator block, then the input blocks in order and an empty
                terminator; every block one Data packet, inside exactly one checksummed frame of the configured method
@@ -46,13 +47,21 @@ def body(run):
         crev = rng.choice([0, 0, 0] + revs)
         scn = rng.choice(["select", "select", "insert", "stream"])
         nrev = min(crev or 54460, srev)
+        def more(j):
+            return {"scn": rng.choice(["select", "select", "insert", "stream"]), "queryID": "qid-%d-%d" % (i, j), "body": rstr(rng) or "SELECT 2",
+                    "secret": rstr(rng)[:40], "qQuotaKey": rng.choice(["", "", rstr(rng)[:40]]), "initialUser": rng.choice(["", "", rstr(rng)[:40]]),
+                    "settings": kvs(rng, rng.randrange(0, 3)),
+                    "params": ([{"k": "p%d" % k, "v": rstr(rng)[:60]} for k in range(rng.randrange(0, 3))] if nrev >= 54459 else []),
+                    "ext": rng.random() < 0.3, "extTable": rng.choice(["", "ext1"]), "rounds": rng.randrange(1, 4), "seed": rng.randrange(1000)}
         sessions.append({
             "id": "c02-%d" % (i + 1), "crev": crev, "srev": srev, "behaviour": "hello", "quotaKey": rstr(rng)[:50],
             "scn": scn, "compression": COMPS[i % 5], "queryID": rng.choice(["", "qid-%d" % i, "id ü", "i" * 140]) or "qid-%d" % i,
             "body": rstr(rng) or "SELECT 1", "secret": rstr(rng)[:40], "qQuotaKey": rstr(rng)[:40], "initialUser": rstr(rng)[:40],
             "connSettings": kvs(rng, rng.randrange(0, 3)), "settings": kvs(rng, rng.randrange(0, 4)),
             "params": ([{"k": "p%d" % j, "v": rstr(rng)[:60]} for j in range(rng.randrange(0, 3))] if nrev >= 54459 else []),
-            "ext": rng.random() < 0.3, "extTable": rng.choice(["", "ext1", "tü"]), "rounds": rng.randrange(1, 5), "seed": rng.randrange(1000)})
+            "ext": rng.random() < 0.3, "extTable": rng.choice(["", "ext1", "tü"]), "rounds": rng.randrange(1, 5), "seed": rng.randrange(1000),
+            # half of the sessions run further queries on the same connection: nothing of an earlier query may show in a later one
+            "more": [more(j) for j in range(rng.choice([0, 0, 1, 2, 3]))]})
     drv = V.go_build(PID, "drv")
     lines = S.run_sessions(PID, drv, sessions, "sessions", nproc=8, par=8)
     slines = [l for l in lines if '"ev":"ClientStream"' in l]
